@@ -25,12 +25,13 @@ def parseRec (before text : String) (s : String) : Option Rec :=
     some ⟨a, w1, d1, t1, u, w2, if d2 == "=" then before else d2, if t2 == "=" then text else t2⟩
   | _ => none
 
-inductive Mode | plain | double | stop (k : Nat) | collect (order : String)
+inductive Mode | plain | double | stop (k : Nat) | collect (order : String) | score
 
 def parseMode (s : String) : Option Mode :=
   match s.splitOn ":" with
   | ["plain"] => some .plain
   | ["double"] => some .double
+  | ["score"] => some .score
   | ["collect"] => some (.collect "order")
   | ["collect-rev"] => some (.collect "rev")
   | ["collect-mix"] => some (.collect "mix")
@@ -106,7 +107,7 @@ def handleEnum (m : Mode) (before text : String) (t : T) (recs : List Rec) (call
     tagIf ((rootSplit t).isSome && t.rooted) "f22region" ++
     tagIf (t.kids.any fun k => k.2.isLeaf) "tip-at-root" ++
     tagIf (innerBranchesShape t == inner) "shapecount" ++
-    (match m with | .plain => ["plain"] | .double => ["double"] | .stop _ => ["stop"] | .collect o => ["collect", "collect-" ++ o])
+    (match m with | .plain => ["plain"] | .double => ["double"] | .stop _ => ["stop"] | .collect o => ["collect", "collect-" ++ o] | .score => ["score"])
   if !scope then
     (if t.uniqueTips then handleGeneral m before text t recs calls wfF dumpF textF ("general" :: tags)
      else ⟨.pass, "skip-dupnames" :: tags, ""⟩) else
@@ -475,6 +476,56 @@ def outStr : Out → String
   | .err m => "err:" ++ escape m
   | .panic => "panic"
 
+/-- the branches of the unrooted tree with their data, whatever the order of the neighbour slices -/
+def sortedKey (v : View) : String :=
+  String.join (sortStrings (v.us.map fun u => showStrList u.side ++ ":" ++ showRat u.len ++ ":" ++ showRat u.sup ++ ";")) ++ "|" ++
+  String.join (sortStrings (v.tl.map fun p => showStrList p.1 ++ ":" ++ showRat p.2 ++ ";"))
+
+/- the six-node piece of `Model/C17Heap.lean` read off the whole heap (tie between the two pointer
+   models: `applyP` on the projection = projection of `applyCore`'s result, tested per effective Apply) -/
+def refOf (n : GNNI) (y : Nat) : PId :=
+  if y = n.n1 then .n .n1 else if y = n.n2 then .n .n2 else if y = n.n11 then .n .a else if y = n.n12 then .n .b
+  else if y = n.n21 then .n .c else if y = n.n22 then .n .d else .ext y
+
+/-- the five branches of the piece (central, then those of n1_1, n1_2, n2_1, n2_2), when the six nodes are
+    adjacent as `newNNI` saw them -/
+def pieceEdges (g : GHeap) (n : GNNI) : Option (List Nat) :=
+  match g.nodes[n.n1]?, g.nodes[n.n2]? with
+  | some N1, some N2 =>
+    match idx N1.neigh n.n2, idx N1.neigh n.n11, idx N1.neigh n.n12, idx N2.neigh n.n21, idx N2.neigh n.n22 with
+    | some i0, some ia, some ib, some ic, some id_ =>
+      [N1.br[i0]?, N1.br[ia]?, N1.br[ib]?, N2.br[ic]?, N2.br[id_]?].mapM id
+    | _, _, _, _, _ => none
+  | _, _ => none
+
+def eidOf (m : List Nat) (e : Nat) : EId :=
+  match m.idxOf? e with
+  | some 0 => .e0 | some 1 => .eo .a | some 2 => .eo .b | some 3 => .eo .c | some 4 => .eo .d
+  | _ => .ext e
+
+def projectP (g : GHeap) (n : GNNI) (m : List Nat) : PHeap :=
+  { node := fun r =>
+      let y := match r with | .n1 => n.n1 | .n2 => n.n2 | .a => n.n11 | .b => n.n12 | .c => n.n21 | .d => n.n22
+      match g.nodes[y]? with
+      | some nd => ⟨nd.neigh.map (refOf n), nd.br.map (eidOf m)⟩
+      | none => ⟨[], []⟩
+    edge := fun e =>
+      let i : Option Nat := match e with | .e0 => some 0 | .eo .a => some 1 | .eo .b => some 2 | .eo .c => some 3 | .eo .d => some 4 | _ => none
+      match (i.bind (m[·]?)).bind (g.edges[·]?) with
+      | some E => ⟨refOf n E.left, refOf n E.right⟩
+      | none => ⟨.ext 0, .ext 0⟩ }
+
+/-- `none`: not comparable (the six nodes are not all different, or no longer adjacent as at creation) -/
+def pieceAgrees (g g' : GHeap) (n : GNNI) : Option Bool :=
+  if !([n.n1, n.n2, n.n11, n.n12, n.n21, n.n22].eraseDups.length == 6) then none else
+  match pieceEdges g n with
+  | none => none
+  | some m =>
+    if m.eraseDups.length != 5 then none else
+    match applyP (projectP g n m) n.cross with
+    | none => some false
+    | some q => some (sameP q (projectP g' n m))
+
 /-- the state of the replay of a history -/
 structure HistSt where
   heapS : String
@@ -483,7 +534,8 @@ structure HistSt where
   tree : T
   view : View
   flags : List Bool
-  stack : List (Nat × String × String)      -- rearrangements in force, with heap and dump before their Apply
+  stack : List (Nat × String × String × String)   -- rearrangements in force, with heap, dump and branch data before their Apply
+                                                  -- (heap "" once the neighbour slices were re-ordered: then only the tree is compared)
   model : State
   oracle : Option String := none
   tie : Option String := none
@@ -493,6 +545,10 @@ structure HistSt where
   sawDeep : Bool := false
   sawStale : Bool := false
   sawRegen : Bool := false
+  sawEdit : Bool := false
+  pieceSeen : Bool := false   -- some effective Apply was compared with the six-node model `applyP`
+  pieceAll : Bool := true
+  siteAll : Bool := true     -- every effective Apply was made on a heap satisfying `siteOK` (hypotheses of `undoCore_applyCore_site`)
   real : Nat := 0
 
 def histStep (s : HistSt) (rec : String × Nat) : HistSt :=
@@ -512,6 +568,17 @@ def histStep (s : HistSt) (rec : String × Nat) : HistSt :=
           some ("model rearrangeG on the current heap builds other objects than Rearrange" ++ at_)
         else none
       { s with flags := s.flags ++ objs.map (fun _ => false), model := ⟨s.model.g, s.model.objs ++ objs⟩, tie := tie1, sawRegen := true }
+  | ["E", kind, wf, hS, dS] =>
+    -- the tree was re-ordered (real SortNeighborsByTips / RotateInternalNodes, not C17's code): the
+    -- history goes on from the heap as it is now; the tree must be the same tree
+    if wf != "ok" then { s with oracle := some ("harness: tree malformed after " ++ kind ++ ": " ++ wf ++ at_) } else
+    match parseGHeap hS, T.undump dS with
+    | some h', some t' =>
+      let v' := viewOf1 t'
+      if !(wfG h') || sortedKey v' != sortedKey s.view then { s with oracle := some ("harness: " ++ kind ++ " changed the tree" ++ at_) }
+      else { s with heapS := hS, heap := h', dump := dS, tree := t', view := v', model := ⟨h', s.model.objs⟩,
+                    stack := s.stack.map (fun e => (e.1, "", e.2.2.1, e.2.2.2)), sawEdit := true }
+    | _, _ => { s with oracle := some ("harness: unreadable heap or dump after " ++ kind ++ at_) }
   | [kS, op, out, flagS, wf, hcol, dcol] =>
     match kS.toNat? with
     | none => { s with oracle := some ("harness: call fields" ++ at_) }
@@ -556,16 +623,23 @@ def histStep (s : HistSt) (rec : String × Nat) : HistSt :=
             let lifo : Option (Option String) :=     -- none: not a LIFO undo; some none: restored; some msg
               if isApply then none else
               match s.stack with
-              | (k0, h0, d0) :: _ => if k0 == k then some (if h0 == heapS' && d0 == dump' then none else some "Undo of the last rearrangement applied does not restore the heap and the tree it was applied to") else none
+              | (k0, h0, d0, key0) :: _ =>
+                if k0 == k then
+                  some (if h0 == "" then (if key0 == sortedKey v' then none else some "Undo of the last rearrangement applied (neighbour slices re-ordered in between) does not restore the tree: splits, lengths, supports")
+                        else if h0 == heapS' && d0 == dump' then none else some "Undo of the last rearrangement applied does not restore the heap and the tree it was applied to")
+                else none
               | [] => none
             match lifo with
             | some (some m) => fail m
             | _ =>
-              let stack' := if isApply then (k, s.heapS, s.dump) :: s.stack
+              let stack' := if isApply then (k, s.heapS, s.dump, sortedKey s.view) :: s.stack
                             else match lifo with | some _ => s.stack.drop 1 | none => []
               let tie2 := if tie1.isSome then tie1 else if ms.2.g != h' then some ("model heap differs from the implementation's records" ++ at_) else none
               { s with heapS := heapS', heap := h', dump := dump', tree := t', view := v', flags := s.flags.set k flagAfter,
                        stack := stack', model := ms.2, tie := tie2,
+                       pieceSeen := s.pieceSeen || (isApply && (match s.model.objs[k]? with | some o => (pieceAgrees s.heap h' o).isSome | none => false)),
+                       pieceAll := s.pieceAll && (!isApply || (match s.model.objs[k]? with | some o => (pieceAgrees s.heap h' o).getD true | none => true)),
+                       siteAll := s.siteAll && (!isApply || (match s.model.objs[k]? with | some o => siteOK s.heap o | none => false)),
                        sawLifo := s.sawLifo || lifo.isSome, sawDeep := s.sawDeep || (isApply && !s.stack.isEmpty),
                        sawStale := s.sawStale || (!isApply && lifo.isNone && !s.stack.isEmpty),
                        real := s.real + 1 }
@@ -587,7 +661,7 @@ def handleHist (kind : String) (t : T) (before runOut heap0S objsS stepsS : Stri
                          flags := objs.map fun _ => false, stack := [], model := ⟨h0, objs⟩ }
     let s := (recs.zip (List.range recs.length)).foldl histStep s0
     let tags := tags0 ++ tagIf s.sawErr "hist-err" ++ tagIf s.sawNoop "hist-noop" ++ tagIf s.sawLifo "hist-lifo" ++
-      tagIf s.sawDeep "hist-deep" ++ tagIf s.sawStale "hist-nonlifo" ++ tagIf s.sawRegen "hist-regen" ++ tagIf (s.real ≥ 2) "hist-real"
+      tagIf s.sawDeep "hist-deep" ++ tagIf s.sawStale "hist-nonlifo" ++ tagIf s.sawRegen "hist-regen" ++ tagIf s.sawEdit "hist-reorder" ++ tagIf (s.real ≥ 1 && s.siteAll) "hist-site-ok" ++ tagIf (!s.siteAll) "hist-site-fail" ++ tagIf (s.pieceSeen && s.pieceAll) "hist-piece-ok" ++ tagIf (s.real ≥ 2) "hist-real"
     match s.oracle with
     | some m => if m.startsWith "harness:" then ⟨.bad, tags, m⟩ else ⟨.oracle, tags, m⟩
     | none =>
@@ -595,7 +669,9 @@ def handleHist (kind : String) (t : T) (before runOut heap0S objsS stepsS : Stri
       if rearrangeG h0 != objs.map some then ⟨.tie, tags, "model rearrangeG/newNNIG builds other objects than Rearrange"⟩
       else match s.tie with
       | some m => ⟨.tie, tags, m⟩
-      | none => ⟨.pass, tags, ""⟩
+      | none =>
+        if !s.pieceAll then ⟨.tie, tags, "the six-node model applyP on the piece read off the heap differs from the piece of the heap after Apply"⟩
+        else ⟨.pass, tags, ""⟩
   | _, _ => bad "C17.hist heap or objects"
 
 end Hist
